@@ -80,6 +80,9 @@ def proj(b):
     return d
 
 
+_LL, _CALLS = {}, [0]
+
+
 def run_real(bib, lib_abs, keyof, order, keep):
     M = bib.model
     cls = kind_classes(M)
@@ -106,8 +109,16 @@ def run_real(bib, lib_abs, keyof, order, keep):
         raise core.MachineryError("library construction changed the blocks (duplicate keys in generator?)")
     before = [proj(b) for b in lib.blocks]
     try:
-        mw = bib.middlewares.SortBlocksByTypeAndKeyMiddleware(block_type_order=tuple(cls[k] for k in order),
-                                                               preserve_comments_on_top=keep)
+        # every second library is sorted by a long-lived sorter object (one per option set for the whole run); and the
+        # result is a function of the library: sorting an equal library first, with the same object, changes nothing
+        okey = (tuple(order), keep)
+        _CALLS[0] += 1
+        if _CALLS[0] % 2:
+            mw = bib.middlewares.SortBlocksByTypeAndKeyMiddleware(block_type_order=tuple(cls[k] for k in order), preserve_comments_on_top=keep)
+        else:
+            if okey not in _LL:
+                _LL[okey] = bib.middlewares.SortBlocksByTypeAndKeyMiddleware(block_type_order=tuple(cls[k] for k in order), preserve_comments_on_top=keep)
+            mw = _LL[okey]
         out = mw.transform(lib)
     except Exception as e:
         return {"raised": True, "out": [], "unaltered": True, "input_unchanged": True, "exc": type(e).__name__}
@@ -191,7 +202,7 @@ def run(chk: core.Check):
     # ---- T3 ----------------------------------------------------------------
     ncases = 300 if chk.tier == "quick" else 5000
     kinds = ["entry"] * 4 + ["string"] * 2 + ["preamble", "icomment", "icomment", "ecomment", "failed", "dup", "dupfield", "mwerror"]
-    keypool = ["", "a", "b", "B", "A", "ab", "é", "Z", "10", "9", "a b"]
+    keypool = ["", "a", "b", "B", "A", "ab", "é", "Z", "10", "9", "a b", "ß", "ss", "ſ", "İ"]
     cases, inputs = [], {}
     for cid in range(ncases):
         n = rnd.randint(0, 14)
